@@ -55,3 +55,36 @@ pub fn clock_advance(d: Duration) {
 pub(crate) fn millis_since_epoch() -> u128 {
     EPOCH_OFFSET_MS + u128::from(clock_now_nanos() / 1_000_000)
 }
+
+/// Verification hook: the input codec's encoder.
+pub fn codec_encode(reference: &[u8], inputs: &[Vec<u8>]) -> Vec<u8> {
+    crate::network::compression::encode(reference, inputs.iter())
+}
+
+/// Verification hook: the input codec's decoder (errors rendered as text).
+pub fn codec_decode(reference: &[u8], data: &[u8]) -> Result<Vec<Vec<u8>>, String> {
+    crate::network::compression::decode(reference, data).map_err(|e| e.to_string())
+}
+
+/// Sizes of the internal buffers of one UDP endpoint.
+#[derive(Debug, Clone, Default, PartialEq, Eq)]
+pub struct EndpointSizes {
+    pub handles: Vec<usize>,
+    pub send_queue: usize,
+    pub event_queue: usize,
+    pub pending_output: usize,
+    pub recv_inputs: usize,
+    pub pending_checksums: usize,
+    pub sync_random_requests: usize,
+}
+
+/// Sizes of the internal buffers of a session; endpoints sorted by their handle lists.
+#[derive(Debug, Clone, Default, PartialEq, Eq)]
+pub struct SessionSizes {
+    pub event_queue: usize,
+    pub pending_local_inputs: usize,
+    pub outgoing_local_inputs: usize,
+    pub local_checksum_history: usize,
+    pub remotes: Vec<EndpointSizes>,
+    pub spectators: Vec<EndpointSizes>,
+}
